@@ -49,6 +49,8 @@ def build(cfg):
         t = pos[pi]
         if kind == "Q":
             extras.append(EventNBBO(t, A, 200.0 + j, 200.0 + j))
+        elif kind == "D":
+            extras.append(EventContractDiscontinued(t, B))
         else:
             extras.append(Custom(t, j))
     if cfg.get("swap_extras") and len(extras) >= 2:
@@ -229,6 +231,8 @@ def run_config(cfg):
                 trace["calls"].append(("reset", env.now(), env._done))
                 # book state right after reset
                 for c in [A, B][:ncon]:
+                    if c is B and any(k_ == "D" for _, k_ in cfg["extras"]):
+                        continue    # B may have been discontinued in the replayed history
                     lastq = None
                     for ent in sink[lo:]:
                         if ent[0] == "E":
@@ -265,7 +269,7 @@ def configs(tier):
     bound = 2 if tier == "quick" else 3
     max_extras = 2 if tier == "quick" else 3
     npos = len(positions(grid_of("min"), 30))
-    items = [(pi, kind) for pi in range(npos) for kind in ("Q", "C")]
+    items = [(pi, kind) for pi in range(npos) for kind in (("Q", "C") if tier == "quick" else ("Q", "C", "D"))]
     for crossed in itertools.product(*[alts for _, alts in CROSSED]):
         base = dict(zip([n for n, _ in CROSSED], crossed))
         for cost, dev in deviations(DEVIATE, bound):
